@@ -175,8 +175,25 @@ def gen(rng, hazards=()):
             body.append(f"mon.write(\"@{k}\")")
             ops.append({"k": k, "lcd": lcd["idx"], "kind": "clear", "tol_row": None})
             k += 1
-    L += body
-    return "\n".join(L) + "\n", lcds, ops
+    in_loop = rng.random() < 0.3
+    if in_loop:
+        # glyph re-uploads of one slot with alternating bitmaps across passes
+        if lcds and rng.random() < 0.7:
+            nm = lcds[0]["name"]
+            bm_a = [rng.choice([0, 31, 17, 4]) for _ in range(8)]
+            bm_b = [31 - x for x in bm_a]
+            body = [f"{nm}.glyph(2, {bm_a})", f"mon.write(\"@{k}\")"] + body + [f"{nm}.glyph(2, {bm_b})", f"mon.write(\"@{k + 1}\")"]
+            ops = [{"k": k, "lcd": lcds[0]["idx"], "kind": "glyph", "tol_row": None}] + ops + [{"k": k + 1, "lcd": lcds[0]["idx"], "kind": "glyph", "tol_row": None}]
+            if rng.random() < 0.6:
+                # the same upload also happens once before the loop
+                L.append(f"{nm}.glyph(2, {bm_a})")
+                L.append(f"mon.write(\"@{k + 2}\")")
+                ops.append({"k": k + 2, "lcd": lcds[0]["idx"], "kind": "glyph", "tol_row": None})
+        L.append("while True:")
+        L += ["    " + b for b in body]
+    else:
+        L += body
+    return "\n".join(L) + "\n", lcds, ops, in_loop
 
 
 def to_host_chars(s: str) -> str:
@@ -185,21 +202,20 @@ def to_host_chars(s: str) -> str:
 
 def compare(fw_events, py_events, lcds, ops):
     problems = []
-    # device snapshots per marker
-    fw_snaps = {}
+    # device snapshots per marker occurrence (a marker inside the main loop occurs once per pass)
+    fw_seq = []
     cur = None
     aw = {}
-    aw_at = {}
     glyph_dev = {}
     oob = []
     for t, kind, f in fw_events:
         if kind == "SER" and f and f[0].startswith("@"):
-            cur = int(f[0][1:])
-            aw_at[cur] = dict(aw)
+            cur = {"k": int(f[0][1:]), "aw": dict(aw), "lcds": {}, "glyphs": {i: dict(g) for i, g in glyph_dev.items()}}
+            fw_seq.append(cur)
         elif kind == "LCDSNAP" and cur is not None:
             rows = [trace.unesc(x) for x in f[5:]]
-            fw_snaps.setdefault(cur, {})[int(f[0])] = {"rows": rows, "display": f[3] == "1", "backlight": f[4] == "1"}
-        elif kind == "PASS":
+            cur["lcds"][int(f[0])] = {"rows": rows, "display": f[3] == "1", "backlight": f[4] == "1"}
+        elif kind in ("PASS", "PASS_END"):
             cur = None
         elif kind == "AW":
             aw[int(f[0])] = int(f[1])
@@ -208,13 +224,31 @@ def compare(fw_events, py_events, lcds, ops):
                 oob.append((f[0], f[1], f[2:]))
             elif f[1] == "GLYPH":
                 glyph_dev.setdefault(int(f[0]), {})[int(f[2])] = [int(x) for x in f[3].split(",")]
-    py_snaps = {}
+    py_seq = []
     curp = None
     for e in py_events:
         if e[0] == "SER" and e[1].startswith("@"):
-            curp = int(e[1][1:])
+            curp = {"k": int(e[1][1:]), "lcds": {}}
+            py_seq.append(curp)
         elif e[0] == "LCDSNAP" and curp is not None:
-            py_snaps.setdefault(curp, {})[e[1]] = {"rows": e[2], "display": e[3], "backlight": e[4], "brightness": e[5], "glyphs": e[6]}
+            curp["lcds"][e[1]] = {"rows": e[2], "display": e[3], "backlight": e[4], "brightness": e[5], "glyphs": e[6]}
+        elif e[0] == "PASS":
+            curp = None
+    if [x["k"] for x in fw_seq] != [x["k"] for x in py_seq]:
+        problems.append(("marker-sequence", f"marker sequence differs: device {[x['k'] for x in fw_seq][:12]} host {[x['k'] for x in py_seq][:12]}"))
+    opmap = {op["k"]: op for op in ops}
+    fw_snaps = {n: x["lcds"] for n, x in enumerate(fw_seq)}
+    py_snaps = {n: x["lcds"] for n, x in enumerate(py_seq)}
+    aw_at = {n: x["aw"] for n, x in enumerate(fw_seq)}
+    seq_ops = [dict(opmap.get(x["k"], {"k": x["k"], "lcd": -1, "kind": "?", "tol_row": None}), k=n, marker=x["k"]) for n, x in enumerate(fw_seq[: len(py_seq)])]
+    ops = seq_ops
+    for n, (fx, px) in enumerate(zip(fw_seq, py_seq)):
+        for lcd in lcds:
+            hg = {int(sl): v for sl, v in ((px["lcds"].get(lcd["idx"]) or {}).get("glyphs") or {}).items()}
+            dg = fx["glyphs"].get(lcd["idx"], {})
+            if hg != dg:
+                problems.append(("glyph", f"occurrence {n} (marker {fx['k']}): LCD {lcd['idx']} device CGRAM {dg} vs host glyphs {hg}"))
+                break
     for o in oob[:3]:
         problems.append(("device-off-row", f"device wrote outside the display (LCD {o[0]} {o[1]} {o[2]})"))
     compared = 0
@@ -261,33 +295,26 @@ def compare(fw_events, py_events, lcds, ops):
                     problems.append(("backlight-i2c", f"marker {k} after {op['kind']}: I2C backlight {d['backlight']}, host {h['backlight']}"))
             if d["display"] != h["display"]:
                 problems.append(("display-flag", f"marker {k}: display on={d['display']}, host {h['display']}"))
-    # glyphs: final device CGRAM vs host
-    if py_snaps:
-        last = py_snaps[max(py_snaps)]
-        for lcd in lcds:
-            hg = {int(s): v for s, v in (last.get(lcd["idx"], {}).get("glyphs") or {}).items()}
-            dg = glyph_dev.get(lcd["idx"], {})
-            if hg != dg:
-                problems.append(("glyph", f"LCD {lcd['idx']}: device CGRAM {dg} vs host glyphs {hg}"))
     return problems, compared
 
 
 def run_case(case):
     idx, sd, hazards = case
     rng = rng_for(PROP, sd, idx, hazards)
-    script, lcds, ops = gen(rng, hazards)
+    script, lcds, ops, in_loop = gen(rng, hazards)
+    passes = 3 if in_loop else 1
     t = engine.transpile(script)
     out = {"script": script, "transpile": t["status"], "exc": t.get("exc")}
     if t["status"] != "ok":
         return out
     out["cpp"] = t["cpp"]
     with fw.Scratch() as wd:
-        py = engine.host_reference(script, wd, passes=1)
+        py = engine.host_reference(script, wd, passes=passes)
         out["py_status"] = py["status"]
         out["py_exc"] = py.get("exc")
         if py["status"] != "ok":
             return out
-        f = engine.firmware(t["cpp"], wd, passes=1)
+        f = engine.firmware(t["cpp"], wd, passes=passes)
         out["fw_status"] = f["status"]
         out["diag"] = engine.first_diag_line(f.get("diag", ""))
         if f["status"] != "ok":
